@@ -1,6 +1,6 @@
 """C03 — scheduler family (shared stream in sched.py) + a real-process stream for the command line of retried steps"""
 import json, os, subprocess
-import common, sched
+import common, sched, x_execs
 
 PROP = "C03"
 
@@ -97,7 +97,11 @@ def retry_budget_stream(chk):
 def run(chk, replay):
     if replay and "argv_case" in json.load(open(replay)).get("case", {}):
         argv_stream(chk); return
+    if replay and "execs_case" in json.load(open(replay)).get("case", {}):
+        x_execs.other_executors_stream(chk, json.load(open(replay))["case"]["execs_case"]); return
     sched.run_property(chk, PROP, replay)
     argv_stream(chk)
     if not replay or "init" in json.dumps(json.load(open(replay)).get("case", {}))[:100000]:
         retry_budget_stream(chk)
+    if not replay:
+        x_execs.other_executors_stream(chk)
